@@ -545,7 +545,7 @@ func (e *absEnv) binop(op token.Token, a, b aval) aval {
 
 // call evaluates fn on args and returns its results.
 func (e *absEnv) call(fn *ssa.Function, args []aval, free []aval, depth int) aval {
-	if depth > 8 {
+	if depth > 16 {
 		e.abort("call depth exceeded at %s", fn.Name())
 	}
 	if len(fn.Blocks) == 0 {
@@ -1521,4 +1521,13 @@ func (e *absEnv) callMethod(prog *ssa.Program, recv aval, name string, args ...a
 		}
 	}()
 	return e.call(m, append([]aval{ifc.val}, args...), nil, 1), true
+}
+
+// unsetField: what a hand-built configuration object answers for a field the table does not set: the zero value
+// for plain settings (numbers, strings, flags: "nothing else is configured on it"), unknown for anything structured.
+func unsetField(what, path string, t types.Type) aval {
+	if _, ok := underlying(t).(*types.Basic); ok {
+		return zeroOf(t)
+	}
+	return aunk{what + " " + path}
 }
